@@ -31,7 +31,7 @@ TStep == /\ l <= Len(T.ev) /\ ~done /\ l' = l + 1 /\ UNCHANGED <<t, done>>
               [] Ev.s = "tempCreated"   -> TempCreated
               [] Ev.s = "wrapped"       -> Wrapped /\ Ev.a[1] = File.gz
               [] Ev.s = "wrote"         -> Wrote
-              [] Ev.s = "flushed"       -> Flushed /\ Ev.a[1] = (File.kind = "streamerr")
+              [] Ev.s = "flushed"       -> Flushed /\ Ev.a[1] = (File.kind \in {"streamerr", "writefail"})
               [] Ev.s = "streamDone"    -> StreamDone
               [] Ev.s = "wrapperClosed" -> WrapperClosed
               [] Ev.s = "closed"        -> Closed
